@@ -39,3 +39,5 @@ def run(ctx):
     R3.r04_10_key_test_table(ctx)
     R3.r11_7_per_call_loader(ctx, 'R04.11')
     R3.r03_15_tag_class_direction(ctx, 'R04.12')
+    from . import memo_rules as M
+    M.memo_sound(ctx, 'R04.M')
